@@ -240,17 +240,13 @@ def rule_clients(ctx, prog, eff):
         b = by.get(nm)
         if not b:
             continue
-        rt = b.return_terms()
-        t = deep_strip(rt[0][1]) if len(rt) == 1 else None
-        e = {}
-        ok = t is not None and match(C("Result::and_then", C("Option::ok_or", C("GuestMemory::to_region_addr", P(1), P(3 if nm == "store" else 2)), AGG("Error", "InvalidGuestAddress", P(3 if nm == "store" else 2))), CLO("c")), t, e)
-        if ok:
-            cb, ct = closure_ret(prog, eff, e["c"])
-            if nm == "store":
-                ok = ct is not None and match(C("Bytes::store", F(P(2), "0"), P(2), F(P(2), "1"), P(4)), ct, {})
-            else:
-                ok = ct is not None and match(C("Bytes::load", F(P(2), "0"), F(P(2), "1"), P(3)), ct, {})
-        ctx.ob("R3.2.atomic_client", b.key, ok, b.where(), f"{nm}: to_region_addr(addr).ok_or(InvalidGuestAddress(addr)).and_then(|(r, a)| r.{nm}(.., a, order))")
+        from ..outcomes import outcome_spec
+        ai = 3 if nm == "store" else 2
+        TR = C("GuestMemory::to_region_addr", P(1), P(ai))
+        fwd = C("Bytes::store", F(OKP(TR), "0"), P(2), F(OKP(TR), "1"), P(4)) if nm == "store" else C("Bytes::load", F(OKP(TR), "0"), F(OKP(TR), "1"), P(3))
+        outcome_spec(ctx, prog, eff, "R3.2.atomic_client", b,
+                     [(fwd, [('discr', TR, 1)]), (AGG("Result", "Err", AGG("Error", "InvalidGuestAddress", P(ai))), [('discr', TR, 0)])],
+                     f"{nm}: to_region_addr(addr) is Some((r, a)) => r.{nm}(.., a, order); None => Err(InvalidGuestAddress(addr))")
 
 
 def rule_error_map(ctx, prog):
